@@ -405,7 +405,7 @@ def topological_sort(nodes):
         if not isinstance(node, Include):
             known.add(node.name)
 
-    known = set(x + y for x in "uir" for y in ["8", "16", "32", "64"])
+    known = set(BUILTIN_SIZES)  # the wire types; 'r8' or 'r16' would be names like any other
     # an include is called after its file, not after anything it defines: its name is no definition to wait for
     available = set(node.name for node in nodes if not isinstance(node, Include))
     for index in range(len(nodes)):
